@@ -938,6 +938,86 @@ func init() {
 	register("P-CALLEE", ruleCallee)
 	register("P-DOTRHS", ruleDotRHS)
 	register("P-SLICE0", ruleSliceStepZero)
+	register("P-SLICEPROJ", ruleSliceProjects)
+}
+
+// P-SLICEPROJ: a slice is a projection. Wherever the parser finds out that a
+// bracket operand is an ASTSlice node (a test of nodeType against ASTSlice),
+// every success return on the slice edge yields an ASTProjection node: the
+// right-hand side (the identity when nothing follows) is applied to each
+// selected element and null results are dropped.
+func ruleSliceProjects(c *Ctx) *RuleResult {
+	r := &RuleResult{Doc: "wherever the parser tests a node for being an ASTSlice, every success return on the slice edge is an ASTProjection over the index expression (a slice with nothing after it still projects the identity, which drops nulls)", Floor: 1}
+	for _, fn := range allFuncs(c.SLib) {
+		if !c.movesCursor(fn) && fn != c.A.Nud && fn != c.A.Led {
+			continue
+		}
+		n := 0
+		for _, b := range fn.Blocks {
+			ifi := blockIf(b)
+			if ifi == nil {
+				continue
+			}
+			bo, ok := ifi.Cond.(*ssa.BinOp)
+			if !ok || (bo.Op != token.EQL && bo.Op != token.NEQ) {
+				continue
+			}
+			k, ok := constInt(bo.Y)
+			if !ok || k != c.A.NT["ASTSlice"] || !types.Identical(bo.Y.Type(), c.A.NodeTypeT) {
+				continue
+			}
+			if _, fld, ok := fieldRead(bo.X); !ok || fld != fNodeType {
+				continue
+			}
+			idx := 0
+			if bo.Op == token.NEQ {
+				idx = 1
+			}
+			S := b.Succs[idx]
+			other := b.Succs[1-idx]
+			n++
+			r.Instances++
+			key := fmt.Sprintf("sliceproj|%s#%d", fn.Name(), n)
+			bad := ""
+			nret := 0
+			for bb := range reachableFrom(S, nil) {
+				if bb == other && !S.Dominates(bb) {
+					continue
+				}
+				ret := blockReturn(bb)
+				if ret == nil || !S.Dominates(bb) {
+					continue
+				}
+				res := retResults(ret)
+				if len(res) == 0 || !c.isASTNode(res[0].Type()) {
+					continue
+				}
+				if sh := c.nodeShapeOf(res[0]); sh != nil && sh.Zero {
+					continue // error return
+				}
+				nret++
+				bns, ok := c.builtNodes(res[0])
+				if !ok {
+					bad = "the return at " + c.pos(ret.Pos()) + " yields a node that is not built here (" + c.symStr(res[0], 0) + ")"
+					continue
+				}
+				for _, bn := range bns {
+					if bn.shape.NodeType != "ASTProjection" {
+						bad = "the return at " + c.pos(ret.Pos()) + " yields " + bn.shape.String() + " for a slice: the selected elements are not projected (null elements are kept)"
+					}
+				}
+			}
+			switch {
+			case bad != "":
+				r.viol(key, c.pos(ifi.Cond.Pos()), fname(fn), bad)
+			case nret == 0:
+				r.undecided(key, c.pos(ifi.Cond.Pos()), fname(fn), "no success return is dominated by the slice edge")
+			default:
+				r.ok(key, c.pos(ifi.Cond.Pos()), fname(fn), fmt.Sprintf("%d success return(s) on the slice edge, each an ASTProjection", nret))
+			}
+		}
+	}
+	return r
 }
 
 // P-CALLEE: a call's callee is an identifier node. Anchored on the
